@@ -310,7 +310,14 @@ func (c *Ctx) binop(op token.Token, a, b *Val, rt types.Type, hint string) *Val 
 	switch op {
 	case token.EQL, token.NEQ:
 		var e string
-		if a.K != VScalar {
+		if empty, ok := c.strLits[""]; ok && a.K == VScalar && isString(a.T) && (a.S == empty || b.S == empty) {
+			// comparison with the empty string: by length (string identities are not canonical)
+			other := a.S
+			if a.S == empty {
+				other = b.S
+			}
+			e = sEq(sApp(c.strLenFn(), other), c.idxConst(0))
+		} else if a.K != VScalar {
 			e = c.eqVal(a, b)
 		} else if isString(a.T) || (a.T != nil && c.scalarSort(a.T) == "Int" && c.mode != "int") || c.scalarSort(a.T) == "Int" || c.scalarSort(a.T) == "Bool" || strings.HasPrefix(c.scalarSort(a.T), "(Array") {
 			e = sEq(a.S, b.S)
